@@ -111,7 +111,7 @@ PARTKIND = {"op": "op", "rho": "op", "ham": "op", "hamjr": "op", "dmom": "dmom",
             # reduced density matrix evolution; one-time objects returned by evolution.at(time)
             "rdme": "dme", "dme-slice": "op", "rdme-slice": "op"}
 # which deterministic array set a kind is (over)written with
-VALKIND = {"hamjr": "ham", "esup-applied": "op", "esup-applied-evol": "dme", "esup-slice": "sup",
+VALKIND = {"ctx": "ham", "hamjr": "ham", "esup-applied": "op", "esup-applied-evol": "dme", "esup-slice": "sup",
            "rdme": "dme", "dme-slice": "rho", "rdme-slice": "rho"}
 # kinds with a method at(time) that returns an object made of one time slice -> kind of it
 SLICEOF = {"esup": "esup-slice", "dme": "dme-slice", "rdme": "rdme-slice"}
@@ -143,6 +143,13 @@ class World:
         # an object that does not fit the context operators (2x2 among 3x3): using it inside a
         # context is a user error that RAISES; the quantifier covers "an exception raised at any
         # point inside a context", so everything else must go on as if nothing had happened
+        self.bad = {}
+        if cfg.get("bad_enter"):
+            from quantarhei.qm import Operator
+            self.bad = {"dimension": SelfAdjointOperator(data=numpy.array([[1.0, 0.3],
+                                                                           [0.3, -2.0]])),
+                        "not-diagonalisable": Operator(data=numpy.array(
+                            [[1.0, 0.3, 0.0], [0.3, -2.0, 0.1], [0.0, 0.1, 0.5]]))}
         self.misfit = None
         self.nmisfit = 0
         if cfg.get("misfit"):
@@ -321,7 +328,8 @@ class World:
                           if "wrong_time_slices" in det else ""), det)
         # clause (i): the innermost context operator is diagonal with ascending eigenvalues
         if rec["kind"] == "ctx" and self.levels and rec["prot"] is None \
-                and self.levels[-1]["name"] == label[1:]:
+                and self.levels[-1]["name"] == label[1:] \
+                and not self.levels[-1].get("overwritten"):
             d = numpy.asarray(o.data)
             off = d - numpy.diag(numpy.diag(d))
             dd = numpy.real(numpy.diag(d))
@@ -329,7 +337,7 @@ class World:
                 self.v("context-operator-not-diagonal-ascending",
                        "%s inside its own context: offdiag %g diag %s"
                        % (label, numpy.max(numpy.abs(off)), dd.tolist()))
-            ev = numpy.linalg.eigvalsh(XDATA[label[1:]])
+            ev = numpy.linalg.eigvalsh(self.levels[-1]["Xroot"])
             if numpy.max(numpy.abs(numpy.sort(dd) - ev)) > 1e-8:
                 self.v("context-operator-wrong-spectrum", "%s diag %s eig %s"
                        % (label, dd.tolist(), ev.tolist()))
@@ -340,6 +348,38 @@ class World:
         for a, x in vals.items():
             setattr(rec["obj"], a[1:], x.copy())
             rec["H"][a] = self.to_root(rec["kind"], x)
+        if rec["kind"] == "ctx":
+            # the user overwrote the operator of open contexts: it is what was written (in the
+            # current basis), no longer the diagonal matrix these contexts were entered with
+            for lv in self.levels:
+                if lv["name"] == label[1:]:
+                    lv["overwritten"] = True
+
+    def write_ctx(self, label):
+        self.nctxwrite = getattr(self, "nctxwrite", 0) + 1
+        self.write(label)
+
+    def enter_bad(self, which):
+        """A nested `with eigenbasis_of(...)` whose __enter__ raises (an operator of another
+        dimension; an object that cannot be diagonalised): __exit__ of that context is never
+        called, the enclosing contexts go on as if nothing had happened."""
+        self.nbadenter = getattr(self, "nbadenter", 0) + 1
+        bad = self.bad[which]          # made before any context was entered
+        before = self._snap()
+        try:
+            self.qr.eigenbasis_of(bad).__enter__()
+        except isolation.HarnessError:
+            raise
+        except Exception:
+            now = self._snap()
+            for k in ("stack", "ntrans", "regkeys", "flag", "cbo"):
+                if now[k] != before[k]:
+                    self.v("bookkeeping/%s-changed-by-failed-enter/%s" % (k, which),
+                           "%s is %r after a nested eigenbasis_of(<%s>) failed to enter at "
+                           "depth %d, was %r" % (k, now[k], which, self.depth(), before[k]))
+            return
+        raise isolation.HarnessError("entering the context of an operator that cannot be "
+                                     "diagonalised did not raise (%s)" % which)
 
     def write_bad(self, label):
         rec = self.objs[label]
@@ -497,7 +537,8 @@ class World:
             self.v("enter/transformation-does-not-diagonalise/" + "+".join(bad),
                    "basis transformation of eigenbasis_of(X%s) at depth %d: %s"
                    % (name, self.depth(), bad))
-        self.levels.append({"name": name, "cm": cm, "S": S, "snap": snap})
+        self.levels.append({"name": name, "cm": cm, "S": S, "snap": snap,
+                            "Xroot": numpy.array(rec["H"]["_data"], copy=True)})
         if not self.mgr._in_eigenbasis_of_context:
             self.v("bookkeeping/context-flag-not-set", "flag False inside a context")
 
@@ -662,12 +703,18 @@ class World:
             ops.append(["raise_all"])
         if self.misfit is not None and d > 0 and self.nmisfit < 1:
             ops.append(["read_misfit"])
+        if cfg.get("bad_enter") and d > 0 and getattr(self, "nbadenter", 0) < 1:
+            ops.append(["enter_bad", "dimension"])
+            ops.append(["enter_bad", "not-diagonalisable"])
         if self.ncreated < cfg["nobj"]:
             for k in cfg["kinds"]:
                 ops.append(["create", k])
         for lab in self.order:
             rec = self.objs[lab]
             ops.append(["read", lab])
+            if rec["kind"] == "ctx" and rec["prot"] is None and cfg.get("write_ctx") \
+                    and getattr(self, "nctxwrite", 0) < 1:
+                ops.append(["write_ctx", lab])
             if rec["kind"] != "ctx" and rec["prot"] is None and not cfg.get("readonly"):
                 if rec["kind"] not in ("lindop", "lindten"):
                     ops.append(["write", lab])
@@ -739,7 +786,9 @@ class World:
                   [_shallow_state(l["cm"]) for l in self.levels],
                   sorted((n, _shallow_state(c)) for n, c in getattr(self, "_cms", {}).items())]
         return [[l["name"] for l in self.levels], list(m.basis_stack), objs,
-                self.nexc, self.ncreated, self.napply, self.nat, mf, self.nadd, hidden]
+                self.nexc, self.ncreated, self.napply, self.nat, mf, self.nadd, hidden,
+                getattr(self, "nbadenter", 0), getattr(self, "nctxwrite", 0),
+                [bool(l.get("overwritten")) for l in self.levels]]
 
 
 def _shallow(v):
@@ -848,6 +897,15 @@ def sections(tier):
         secs.append(("freeze-by-protect", {"ctx": ["A", "B"], "kinds": ["op"], "nobj": 1,
                                            "nest": 2, "nexc": 0, "protect": True, "freeze": True,
                                            "readonly": True}, 5))
+        # a nested context that fails to enter; the operator of an open context overwritten by
+        # the user and its context entered again
+        secs.append(("failed-enter", {"ctx": ["A", "B"], "kinds": ["op"], "nobj": 1, "nest": 2,
+                                      "nexc": 1, "protect": False, "bad_enter": True}, 4))
+        secs.append(("context-operator-overwritten", {"ctx": ["A", "B"], "kinds": [], "nobj": 0,
+                                                      "nest": 3, "nexc": 0, "protect": False,
+                                                      "readonly": True, "napply": 0,
+                                                      "write_ctx": True,
+                                                      "precreate": ["op"]}, 5))
         # sibling inner contexts inside one outer context, objects that skip a level
         secs.append(("sibling-contexts", {"ctx": ["A", "B"], "kinds": [], "nobj": 0, "nest": 2,
                                           "nexc": 0, "protect": False, "readonly": True,
@@ -876,6 +934,12 @@ def sections(tier):
         secs.append(("freeze-by-protect", {"ctx": ["A", "B"], "kinds": ["op", "sup", "dme"],
                                            "nobj": 1, "nest": 3, "nexc": 1, "protect": True,
                                            "freeze": True, "readonly": True}, 6))
+        secs.append(("failed-enter", {"ctx": ["A", "B"], "kinds": ["op", "sup"], "nobj": 2,
+                                      "nest": 3, "nexc": 1, "protect": True, "bad_enter": True}, 6))
+        secs.append(("context-operator-overwritten", {"ctx": ["A", "B"], "kinds": ["op"],
+                                                      "nobj": 1, "nest": 3, "nexc": 1,
+                                                      "protect": False, "napply": 0,
+                                                      "write_ctx": True}, 6))
         secs.append(("sibling-contexts", {"ctx": ["A", "B", "C"], "kinds": [], "nobj": 0,
                                           "nest": 3, "nexc": 0, "protect": False,
                                           "readonly": True, "napply": 0,
